@@ -466,3 +466,49 @@ pub fn short_read_ignored_bad(r: &mut dyn std::io::Read, out: &mut Vec<u8>) -> s
     out.extend_from_slice(&buf);
     Ok(())
 }
+
+
+// ---------------------------------------------------------------------------------------------------------
+// recursion on input nesting needs a compared depth counter (C02.R5)
+// ---------------------------------------------------------------------------------------------------------
+pub fn rec_unbounded_bad(data: &[u8], pos: usize) -> usize {
+    if pos < data.len() && data[pos] == b'(' {
+        1 + rec_unbounded_bad(data, pos + 1)
+    } else {
+        0
+    }
+}
+
+pub fn rec_param_ok(data: &[u8], pos: usize, depth: usize) -> Option<usize> {
+    if depth > 32 {
+        return None;
+    }
+    if pos < data.len() && data[pos] == b'(' {
+        Some(1 + rec_param_ok(data, pos + 1, depth + 1)?)
+    } else {
+        Some(0)
+    }
+}
+
+pub struct Nest<'a> {
+    pub data: &'a [u8],
+    pub pos: usize,
+    pub depth: usize,
+}
+
+impl Nest<'_> {
+    pub fn rec_field_ok(&mut self) -> Option<usize> {
+        if self.depth >= 32 {
+            return None;
+        }
+        self.depth += 1;
+        let r = if self.pos < self.data.len() && self.data[self.pos] == b'(' {
+            self.pos += 1;
+            Some(1 + self.rec_field_ok()?)
+        } else {
+            Some(0)
+        };
+        self.depth -= 1;
+        r
+    }
+}
